@@ -31,7 +31,7 @@ type Engine struct {
 	bundleKeys map[string][][2]string
 	Axioms     []*spec.Axiom
 	RawSMT     []string
-	RawSMTLate []string // emitted after the spec function declarations (package-level axioms)
+	RawSMTLate map[string][]string // per package path: emitted after the spec function declarations (package-level axioms)
 	typeTags   map[string]int
 	theory     map[string]string
 	srcLines   map[string][]string
@@ -73,7 +73,7 @@ func Load(dir string, patterns ...string) (*Engine, error) {
 		Prog: prog, Pkgs: pkgs, SSAPkgs: spkgs,
 		Contracts: map[string]*spec.FuncContract{}, Iface: map[string]*spec.FuncContract{},
 		SpecFuncs: map[string]*spec.SpecFunc{}, Bundles: map[string]*spec.HeapBundle{}, bundleKeys: map[string][][2]string{}, typeTags: map[string]int{}, srcLines: map[string][]string{},
-		Assumptions: map[string]bool{}, TimeoutS: 10,
+		Assumptions: map[string]bool{}, TimeoutS: 10, RawSMTLate: map[string][]string{},
 	}
 	if len(pkgs) > 0 {
 		e.Fset = pkgs[0].Fset
